@@ -42,7 +42,12 @@ func (s *sessions) update(sess *session) {
 			i.mux.Lock()
 			defer i.mux.Unlock()
 			if i.cancel != nil {
-				i.cancel <- true
+				// Never block while holding the locks: the one-slot channel may still hold an earlier
+				// cancel that nobody will read because that session's renewal goroutine has already gone.
+				select {
+				case i.cancel <- true:
+				default:
+				}
 			}
 			s.Entries[sess.realm] = sess
 			return
@@ -121,7 +126,10 @@ func (s *session) destroy() {
 	s.mux.Lock()
 	defer s.mux.Unlock()
 	if s.cancel != nil {
-		s.cancel <- true
+		select {
+		case s.cancel <- true:
+		default:
+		}
 	}
 	s.endTime = time.Now().UTC()
 	s.renewTill = s.endTime
